@@ -8,7 +8,7 @@ from typing import Any, Iterable, Optional
 
 from .. import sqlabs as S
 from ..cfg import ENTRY, EXIT
-from ..core import AnalysisError, FuncInfo, Report, unparse
+from ..core import AnalysisError, FuncInfo, Report, dotted, unparse
 from ..ctx import Ctx
 from ..lin import lin_eval, show
 
@@ -146,7 +146,35 @@ def time_window_bounds(ctx: Ctx, rep: Report, rule: str) -> tuple[int, int]:
                 and defs.only_param("time_buffer"):
             return "time_buffer"
         return None
-    forms = [lin_eval(x, defs, atom) for x in rv.elts]
+    # exactness: span times are unix nanoseconds (~1.7e18 > 2**53); one
+    # float operand turns a bound into a float64 that is rounded to a
+    # multiple of 256 ns, and the inclusive comparison at the window's edge
+    # then deletes / keeps the wrong trace
+    bad = []
+    for x in rv.elts:
+        deep = ctx.reach(fi).resolve_deep(x, at=rets[0])
+        for n in ast.walk(deep):
+            if isinstance(n, ast.Constant) and isinstance(n.value, float):
+                bad.append(f"float constant {n.value!r}")
+            elif isinstance(n, ast.BinOp) and isinstance(n.op, ast.Div):
+                bad.append(f"true division '{unparse(n)[:40]}'")
+            elif isinstance(n, ast.Call) and (dotted(n.func) or "").split(
+                    ".")[-1] in ("float", "round", "timestamp",
+                                 "total_seconds"):
+                bad.append(f"float-valued call '{unparse(n)[:40]}'")
+    rep.ob(rule, "the window bounds are computed in exact integer "
+           "arithmetic", not bad, fi=fi, node=rets[0],
+           detail=("; ".join(sorted(set(bad))) + " in the dataflow of the "
+                   "returned bounds: nanosecond timestamps are not exact in "
+                   "float64") if bad else
+           "no float constant, true division or float-valued call in the "
+           "dataflow of the returned bounds")
+    try:
+        forms = [lin_eval(x, defs, atom) for x in rv.elts]
+    except AnalysisError:
+        if bad:          # already reported as inexact arithmetic
+            return 0, 1
+        raise
     ns_per_min = Fraction(60 * 10**9)
     want_lo = {"min_timestamp": Fraction(1), "time_buffer": ns_per_min}
     want_hi = {"max_timestamp": Fraction(1), "time_buffer": -ns_per_min}
